@@ -26,7 +26,7 @@ func init() {
 	core.Register(&core.Monitor{
 		ID: "C10",
 		Rule: "invalid-biased (schema text, document text) pairs (1-3 injected faults with near-miss names that have several equidistant 'did you mean' candidates, many conflicting field pairs, type-blind documents) and single-fault schema texts; " +
-			"each pair is validated k times from fresh parses (schema reloaded on alternate repeats), the already validated tree is validated again, and the whole case list runs in 4 worker processes whose per-case digests the driver compares; " +
+			"each pair is validated k times from fresh parses (schema reloaded on alternate repeats), the already validated tree is validated again, and the whole case list runs in 4 worker processes, each in a different order (forward, backward, two shuffles), whose per-case digests the driver compares; " +
 			"the canonical serialization covers rule, message, every location and the order of the list; LoadSchema errors are compared the same way. A difference on any axis is a violation. " +
 			"distinct = distinct error-list digests seen; non-trivial = cases whose error list is non-empty",
 		Assumptions: []string{
@@ -70,16 +70,49 @@ func c10Case(seed uint64, part, idx int) *core.Case {
 	}
 	n := 1 + r.Intn(3)
 	for k := 0; k < n; k++ {
-		dgen.Faults[r.Intn(len(dgen.Faults))].Do(dgen.NewFCtx(r, mg, doc))
+		f := dgen.Faults[r.Intn(len(dgen.Faults))]
+		if r.Chance(1, 3) {
+			f = c10NearMiss()[r.Intn(len(c10NearMiss()))]
+		}
+		f.Do(dgen.NewFCtx(r, mg, doc))
 	}
 	return core.NewCase("pair", "schema", rn.RenderSDoc(&model.SDoc{Items: items}), "doc", rn.RenderDoc(doc))
+}
+
+var c10nm []dgen.Fault
+
+// c10NearMiss: the faults whose messages carry 'did you mean' lists or that produce several errors at one node.
+func c10NearMiss() []dgen.Fault {
+	if c10nm == nil {
+		for _, f := range dgen.Faults {
+			if strings.HasPrefix(f.Name, "near-miss") || f.Name == "missing-required-input-field" || f.Name == "missing-required-argument" {
+				c10nm = append(c10nm, f)
+			}
+		}
+	}
+	return c10nm
 }
 
 func c10Run(x *core.Ctx) {
 	parts := x.NShards / c10Replicas
 	part := x.Shard % parts
 	n := c10Count(x)
-	for i := 0; i < n; i++ {
+	// every replica of a part runs the same cases, each in its own order (forward, backward, two seeded shuffles): a result
+	// that depends on what the process validated before (a cache keyed too coarsely) gives the replicas different digests
+	order := make([]int, n)
+	for i := range order {
+		order[i] = i
+	}
+	switch replica := x.Shard / parts; replica {
+	case 0:
+	case 1:
+		for i, j := 0, n-1; i < j; i, j = i+1, j-1 {
+			order[i], order[j] = order[j], order[i]
+		}
+	default:
+		order = core.NewRand(x.Seed, core.HashString("C10-order"), uint64(replica)).Perm(n)
+	}
+	for _, i := range order {
 		c := c10Case(x.Seed, part, i)
 		c.Set("id", fmt.Sprintf("%d/%d", part, i))
 		x.Do(c, func() { c10Check(x, c) })
@@ -167,8 +200,10 @@ func c10Check(x *core.Ctx, c *core.Case) {
 				return
 			}
 		}
-		x.Distinct("digest", c.Get("id")+"#"+digestOf(ssrc)+"="+digestOf(lerr))
-		x.Count("cross_process_cases")
+		if c.Get("id") != "" {
+			x.Distinct("digest", c.Get("id")+"#"+digestOf(ssrc)+"="+digestOf(lerr))
+			x.Count("cross_process_cases")
+		}
 		return
 	}
 	dsrc := c.Get("doc")
@@ -207,8 +242,10 @@ func c10Check(x *core.Ctx, c *core.Case) {
 			return
 		}
 	}
-	x.Distinct("digest", c.Get("id")+"#"+digestOf(ssrc+"\x00"+dsrc)+"="+digestOf(first))
-	x.Count("cross_process_cases")
+	if c.Get("id") != "" { // witnesses and replays have no sibling processes
+		x.Distinct("digest", c.Get("id")+"#"+digestOf(ssrc+"\x00"+dsrc)+"="+digestOf(first))
+		x.Count("cross_process_cases")
+	}
 	if x.WantSample() && strings.Contains(first, "Did you mean") && len(dsrc) < 400 {
 		x.Sample(map[string]interface{}{"document": dsrc, "errors": first, "repeats": k, "verdict": "identical error list on every repeat, on re-validation and in every worker process"})
 	}
